@@ -810,6 +810,9 @@ func (g *FnGen) locCovers(env *Env, loc Expr, a *Addr) string {
 		x := env.tr(l.X)
 		p, ok := typeUnder(x.GT).(*types.Pointer)
 		if !ok {
+			if _, isSt := typeUnder(x.GT).(*types.Struct); isSt {
+				return g.locCovers(env, l.X, a) // s.f.g names (a part of) the location s.f
+			}
 			return "false"
 		}
 		st, ok := p.Elem().Underlying().(*types.Struct)
@@ -846,6 +849,13 @@ func (g *FnGen) locCovers(env *Env, loc Expr, a *Addr) string {
 		}
 		return "false"
 	case *ECall:
+		if id, _ := l.Fn.(*EIdent); id != nil && len(l.Args) == 1 && (id.Name == "fieldsof" || id.Name == "elemsoftype") {
+			for _, fam := range g.typeFrameFams(env, id.Name, l.Args[0]) {
+				if fam == a.Fam {
+					return "true"
+				}
+			}
+		}
 		return "false"
 	}
 	return "false"
